@@ -167,6 +167,13 @@ def judge(ctx, q, info, unjudged=False, must=0, mustnot=0):
             ctx.violation("re-application-differs-from-reference", f"{astx.first_diff(again, refimpl.lower_aggregates(out))} | in: {witness['query'][:300]}", witness)
     except Exception as e:
         ctx.violation(f"exc-on-reapplication:{type(e).__name__}", f"{e} | in: {witness['query'][:300]}", witness)
+    if ctx.rnd.random() < 0.3:
+        # history: the consumer goes on to edit what it got back, in place (keywords appended to calls, names changed ...): nothing
+        # of that may show in what the transformer hands out for the next query
+        from ..history import vandalise
+
+        vandalise(out)
+        ctx.count("results-edited-in-place-by-their-consumer")
 
 
 def judge_folds(ctx):
